@@ -162,6 +162,20 @@ for (n, tier) in [("open_valid_permissive", "thorough"), ("open_valid_strict", "
     harness(n, props=["C04", "C02", "C16", "C05", "C17"], tier=tier, timeout=7200, mem=16, fs=8192, stubs=[FMT, STUB_UP],
             what="open_internal on a valid file laid out unlike this crate's writer (FAT in sector 1, directory chain 4 -> 0 so that the physically last sector's FAT cell is 0, red nodes, unallocated slots): accepted, caches (FAT, MiniFAT, all 8 directory entries) equal what the image encodes, lookups by other letter case, metadata and the bytes of a fragmented mini stream read back",
             bounds="6-sector v3 image; mini stream contents and metadata symbolic", functions=OPEN_F, assumes=[A_SHAPE, A_UPTABLE])
+# ---------------------------------------------------------------- C11: write-path walks from unvalidated start sectors (h_walks.rs)
+_WALK_Q = ["c11_free_mini_chain_far", "c11_free_mini_after_past_end", "c11_extend_mini_at_free", "c11_extend_chain_freemark",
+           "c11_extend_chain_at_free", "c11_free_mini_chain_inside"]
+for _op in ["free_mini_chain", "free_mini_after", "extend_mini", "extend_chain"]:
+    for _cls in ["past_end", "far", "maxreg", "freemark", "at_free"] + (["inside"] if _op in ("free_mini_chain", "extend_chain") else []) + (["at_fatsect"] if _op == "extend_chain" else []):
+        _n = "c11_%s_%s" % (_op, _cls)
+        harness(_n, props=["C11"], tier=("quick" if _n in _WALK_Q else "thorough"), timeout=900, mem=6, stubs=[FMT, STUB_COPY],
+                what="%s from a start sector of class '%s' on a well-formed allocator: returns Ok or Err, no index panic, terminates (unwinding assertion); a start outside the table is refused" % (_op, _cls),
+                bounds="MiniFAT [1,EOC,EOC,FREE,EOC] / FAT [FATSECT,2,EOC,FREE]; start sector concrete per instance over its classes (first cell past the table, 1000, MAX_REGULAR_SECTOR, FREE marker, a FREE cell, the FAT sector's cell, inside a chain); mini stream bytes symbolic",
+                functions=["MiniAllocator::free_mini_chain", "MiniAllocator::free_mini_chain_after", "MiniAllocator::extend_mini_chain", "MiniAllocator::free_mini_sector", "MiniAllocator::next_mini_sector", "Allocator::extend_chain", "Allocator::next"],
+                assumes=[A_IOCOPY, A_SHAPE, "start sector enumerated over classes, not symbolic (a symbolic start did not finish in 10 min)"])
+harness("mini_next_total", props=["C11", "C05", "C04"], timeout=600, mem=6, stubs=[FMT],
+        what="MiniAllocator::next_mini_sector(id) for ANY u32 id over ANY four MiniFAT cells: never panics, Ok only for in-range ids with a valid successor and then equal to the cell, otherwise an error",
+        bounds="MiniFAT of 4 fully symbolic u32 cells, id: all u32", functions=["MiniAllocator::next_mini_sector"], assumes=[])
 harness("open_bogus_minifat_then_write", props=["C11", "C05"], tier="thorough", timeout=7200, mem=16, fs=8192, stubs=[FMT, STUB_COPY, STUB_UP],
         what="for EVERY value of the header's first-MiniFAT-sector field on a file with an empty mini stream: if permissive open accepts the file, writing a small stream afterwards returns Ok or Err without panicking or looping",
         bounds="first_minifat_sector: all u32; 6-sector image", functions=OPEN_F + STOR_F + MINI_F, assumes=[A_SHAPE, A_IOCOPY])
@@ -302,8 +316,8 @@ P("C04",
   level_text="Readers decided to decode exactly the logical content on symbolic valid inputs per component: any FAT link values (next), any valid sibling-tree shape and colouring (lookup), any directory-entry field values (codec), fragmented chains.",
   level_note="Whole-file layouts only through the component harnesses.", bounds="as C01/C03/C16", outside="whole-file symbolic layouts")
 P("C11",
-  level_text="Chain following on arbitrary FAT cells never panics (next()); mutating walks on states that only satisfy what permissive open checks are covered where registered.",
-  level_note="See known findings for the unchecked walks.", bounds="FAT <= 4 cells", outside="larger tables")
+  level_text="The checked lookups (Allocator::next, MiniAllocator::next_mini_sector, Chain::new) are total for all u32 arguments over fully symbolic tables; every walk of the write path (extend_chain, extend_mini_chain, free_mini_chain, free_mini_chain_after) started from each class of unvalidated start sector returns Ok or Err without panic and terminates.",
+  level_note="Start sectors are enumerated over their classes per instance, not symbolic; histories of several mutating calls on a damaged file are not composed (one walk per harness); the unchecked indexing found here was repaired by a041510.", bounds="FAT/MiniFAT <= 5 cells", outside="larger tables, damaged files beyond a bad start sector / size field, multi-call histories")
 
 P("C12",
   level_text="Fault injection as solver variables: the position of the failing read/seek among all underlying calls of a buffer refill is symbolic; Ok results must equal the fault-free content, retries must not return stale bytes.",
@@ -354,7 +368,7 @@ QUICK.update({
     "C10": ["c06_seek_total", "api_invalid_names", "api_ref_new_stream_exists", "api_ref_parent_is_stream",
             "api_ref_remove_stream_on_storage", "api_ref_storage_on_stream", "api_ref_escape_root", "api_ref_clsid_on_stream",
             "cache_c_refused_seeks_change_nothing_min"],
-    "C11": ["alloc_next_total", "chain_new_total"],
+    "C11": ["alloc_next_total", "chain_new_total", "mini_next_total"] + _WALK_Q,
     "C12": ["stor_read_fault_seek0", "stor_read_fault_seek1", "stor_read_fault_read0", "stor_read_cross"] + [n for n in seqs.quick_faults() if "c12" in n],
     "C13": ["c13_free_fault_at0", "c13_free_fault_at2", "c13_free_fault_at4", "cache_c_write_flush_write_read_min"] + [n for n in seqs.quick_faults() if "c13" in n],
     "C14": ["c14_lookups", "c14_iter_root", "c14_iter_walk", "c14_iter_storage", "c14_stream_rw", "c14_stream_setlen", "c14_stream_big_window"],
